@@ -442,6 +442,8 @@ type UnitSpec struct {
 	Modifies     []string // heap classes; nil+ModAll => everything
 	Preserves    []string // with no modifies clause: everything is havoced except these classes
 	FrameAssumed bool     // the preserves frame of a verified unit is trusted, not proved
+	Retains      []string // slice parameters the callee keeps by reference (badger Txn.Set): not to be written afterwards
+	Consumes     []string // reference parameters that may be handed to this callee only once (decode targets)
 	External     bool     // declared in a package that is not part of this run: used at call sites only
 	ModSet       bool     // a modifies/pure line was given
 	Pure         bool
@@ -692,6 +694,10 @@ func ParseContracts(path, pkgName, src string) (*ContractFile, error) {
 				}
 				cur.Preserves = append(cur.Preserves, f[1:]...)
 				cur.FrameAssumed = true
+			case "retains":
+				cur.Retains = append(cur.Retains, strings.Fields(strings.ReplaceAll(rest, ",", " "))...)
+			case "consumes":
+				cur.Consumes = append(cur.Consumes, strings.Fields(strings.ReplaceAll(rest, ",", " "))...)
 			case "pure":
 				cur.ModSet = true
 				cur.Pure = true
